@@ -26,8 +26,13 @@ func NewChannelMgr(cfg *Config, defaultTimeShiftBufferDepthS, defaultReceiveNrRa
 	}
 }
 
+// AddChannel adds a channel with name chName unless it already exists.
 func (cm *ChannelMgr) AddChannel(ctx context.Context, chName, chDir string) {
 	cm.mu.Lock()
+	defer cm.mu.Unlock()
+	if _, ok := cm.channels[chName]; ok {
+		return // Created by a concurrent upload
+	}
 
 	chCfg := ChannelConfig{
 		Name:                 chName,
@@ -51,7 +56,6 @@ func (cm *ChannelMgr) AddChannel(ctx context.Context, chName, chDir string) {
 		chCfg.TimeShiftBufferDepthS = cm.defaultTimeShiftBufferDepthS
 	}
 	cm.channels[chName] = newChannel(ctx, chCfg, chDir)
-	cm.mu.Unlock()
 }
 
 func (cm *ChannelMgr) GetChannel(chName string) (*channel, bool) {
